@@ -19,6 +19,12 @@ import Dashu.Proofs.NT.PrimRootU128CbrtTotal
 import Dashu.Proofs.NT.LehmerBuf
 import Dashu.Proofs.NT.LehmerBufB
 import Dashu.Proofs.NT.LehmerBufC
+import Dashu.Proofs.NT.LehmerIter
+import Dashu.Proofs.NT.LehmerWordsFit
+import Dashu.Proofs.NT.LehmerEuclidFit
+import Dashu.Proofs.NT.LehmerStepWords
+import Dashu.Proofs.NT.LehmerStepWordsGen
+import Dashu.Proofs.NT.LehmerStepCommitted
 /-
   C12 — gcd, integer roots, integer logarithms and `remove` satisfy their defining (in)equalities;
   the only panics are the documented ones.
@@ -660,6 +666,31 @@ theorem root_tables_regenerated :
    estSqrtU32_regenerated, estCbrtU32_regenerated, estSqrtU64_regenerated, estCbrtU64_regenerated,
    u128_kbits_regenerated.1, u128_kbits_regenerated.2⟩
 
+/-- **Tie A (Round 6): the two `u128` steps run with the source's shift amounts.**  Every shift amount, mask width
+    and small multiplier of `u128::normalized_sqrt_rem` / `u128::normalized_cbrt_rem` (written in the source as expressions
+    in `KBITS` / `u64::BITS` or as literals: `r1 << (KBITS − 1) | b >> (KBITS + 1)`, `q >> KBITS`, `(s1 as u64) << KBITS`,
+    `u << (KBITS + 1)`, `(1 << (KBITS + 1)) − 1`, `u >> (KBITS − 1)`, `<< u64::BITS`; `self >> 63`, `c >>= 1`, `a >> 3`,
+    `self >> 66`, `<< KBITS`, `>> (2 * KBITS)`, `(1 << KBITS) − 1`, `3 * c1²`, `u << (2 * KBITS)`, `(3 * c1) << KBITS`, and
+    the `r += 3 * (c − 1) * c + 1; c −= 1` descent) is regenerated from its own statement on every run
+    (vlib/extract_roottabs.py: one statement shape per definition, evaluated with that function's `KBITS`; fails
+    closed).  The model's routines — the ones `prim_sqrt_rem_sound`, `prim_cbrt_rem_sound`,
+    `prim_sqrt_u128_total_of_u64`, `prim_cbrt_u128_total_of_u64` are about and the driver executes — equal the same
+    routines over the regenerated amounts, so an edit of one of these amounts in the source breaks this theorem (and
+    the build of this module), not only the sampled correspondence. -/
+theorem root_u128_steps_regenerated :
+    normSqrtU128 = normSqrtU128G ∧ normCbrtU128 = normCbrtU128G ∧ (∀ fuel c r, cbrtDownLoop fuel c r = cbrtDownLoopG fuel c r) ∧
+    Gen.sqrt_u128_r0_shl = Gen.sqrt_u128_KBITS - 1 ∧ Gen.sqrt_u128_r0_shr = Gen.sqrt_u128_KBITS + 1 ∧
+    Gen.cbrt_u128_r0_shr = 2 * Gen.cbrt_u128_KBITS ∧ Gen.cbrt_u128_t1_shl = 2 * Gen.cbrt_u128_KBITS ∧
+    Gen.cbrt_u128_c1_pow = 3 ∧ Gen.cbrt_u128_d_pow = 2 ∧ Gen.cbrt_u128_t2_pow = 2 :=
+  ⟨normSqrtU128_regenerated, normCbrtU128_regenerated, cbrtDownLoop_regenerated,
+   u128_step_amounts_regenerated.2.2.2.1, u128_step_amounts_regenerated.2.2.2.2.1, u128_step_amounts_regenerated.2.2.2.2.2.1,
+   u128_step_amounts_regenerated.2.2.2.2.2.2, u128_step_amounts_regenerated.1, u128_step_amounts_regenerated.2.1,
+   u128_step_amounts_regenerated.2.2.1⟩
+
+/-- the regenerated routines are the executed ones: a normalised `u128` through the regenerated steps -/
+example : normSqrtU128G (2 ^ 127 + 12345) = normSqrtU128 (2 ^ 127 + 12345) ∧ (normSqrtU128G (2 ^ 127 + 12345)).isSome = true ∧
+    (normCbrtU128G (2 ^ 126 + 999)).isSome = true ∧ (normCbrtU128G (2 ^ 127 + 999)).isSome = true := by decide +kernel
+
 -- ==================================================================== gcd_ext_in_place: coefficient sizes (Round 4)
 
 /-- **buffer-length claim of `lehmer::gcd_ext_in_place`, coefficients `t0`, `t1`** (partial: the final
@@ -712,5 +743,239 @@ theorem gcd_ext_b_fits (W : Nat) (hW : 0 < W) (lhs rhs : Nat) (hle : rhs ≤ lhs
 example : ∃ g bb neg, lehmerExt 64 (2 ^ 200 + 12345) (3 ^ 120 + 7) = .ok (g, bb, neg) ∧ bb ≤ 2 ^ 200 + 12345 := by
   obtain ⟨⟨g, bb, neg⟩, h, _⟩ := lehmer_gcd_ext_correct 64 (by decide) (2 ^ 200 + 12345) (3 ^ 120 + 7) (by decide +kernel) (by decide +kernel)
   exact ⟨g, bb, neg, h, (gcd_ext_b_fits 64 (by decide) _ _ (by decide +kernel) h).1⟩
+
+-- ==================================================================== gcd_ext_in_place: every iteration (Round 6)
+
+/-- **the main loop of `lehmer::gcd_ext_in_place` is the iteration of its body**: `lehmerExtStep` is one pass through
+    the `while` body (Euclidean fallback, or `lehmer_step` + `lehmer_ext_step`, then the swap); what the executed
+    loop `lehmerExtLoop` returns is the state at the head of some iteration `k` — the first at which `y` has at most
+    one word. -/
+theorem gcd_ext_loop_is_iteration (W fuel : Nat) (s res : ExtState)
+    (h : lehmerExtLoop W fuel s.1 s.2.1 s.2.2.1 s.2.2.2.1 s.2.2.2.2 = .ok res) :
+    ∃ k, k < fuel ∧ lehmerExtIter W k s = some res ∧ wordLen W res.2.1 ≤ 1 :=
+  lehmerExtLoop_iter W fuel s res h
+
+/-- **buffer-length claim of `lehmer::gcd_ext_in_place` at EVERY iteration** (round 4 proved it at the exit of the
+    loop and for the returned `|b|`).  At the head of the `k`-th iteration reached from `(lhs, rhs, t0 = 0, t1 = 1)`,
+    `rhs ≤ lhs`, for every `k`: `t1·x + t0·y = lhs` and `y ≤ x`; as long as `y > 0` (in particular whenever the loop
+    goes on: `y` has more than one word) both coefficients are below `2^(W·lhs_len)`.  So the operands of every
+    `lehmer_ext_step` / `add_signed_mul(t0, +, q, t1)` call, and their results (the coefficients at the head of the
+    next iteration), fit the `lhs_len` words of `t0`, `t1` (`lhs_len + 1` are reserved) and every carry the code
+    `debug_assert_zero!`s inside the loop is zero.  Still at value level: the partial sums inside one in-place
+    word loop are not separately bounded (they are bounded by the loop's result, all summands being non-negative). -/
+theorem gcd_ext_every_iteration_fits (W : Nat) (hW : 0 < W) (lhs rhs : Nat) (hlr : rhs ≤ lhs) (k : Nat)
+    (x y t0 t1 : Nat) (sw : Bool) (h : lehmerExtIter W k (lhs, rhs, 0, 1, false) = some (x, y, t0, t1, sw)) :
+    t1 * x + t0 * y = lhs ∧ y ≤ x ∧
+    (0 < y → t0 < 2 ^ (W * wordLen W lhs) ∧ t1 < 2 ^ (W * wordLen W lhs)) :=
+  lehmerExt_every_iteration_fits W hW lhs rhs hlr k x y t0 t1 sw h
+
+/-- the hypothesis is satisfiable: the third iteration of a concrete multi-word run exists, with non-trivial
+    coefficients and the invariant evaluated -/
+example : (match lehmerExtIter 64 3 (2 ^ 200 + 12345, 3 ^ 120 + 7, 0, 1, false) with
+    | some (x, y, t0, t1, _) => decide (t1 * x + t0 * y = 2 ^ 200 + 12345 ∧ 0 < y ∧ 1 < t0 ∧ 1 < t1)
+    | none => false) = true := by decide +kernel
+
+-- ==================================================================== lehmer_ext_step: the word loop (Round 6)
+
+/-- **`lehmer::lehmer_ext_step` mirrored at the word level** (`lehmerExtStepWords`, Model/NT/LehmerWords.lean: the
+    `for (x_i, y_i) in x.iter_mut().zip(y.iter_mut()).take(len)` loop with its two double-word accumulations and
+    running carry words).  On word operands, with `a + b < 2^W`, `c + d < 2^W` (the code asserts every cofactor
+    `≤ SignedWord::MAX`) and incoming carries that are words: NO double-word accumulation `a·x_i + b·y_i + carry`
+    overflows (the loop returns — every partial sum of the in-place loop is bounded), the buffers keep their lengths
+    and stay words, words beyond `len` are untouched, both carries are words, and
+    `x'[..len] + 2^(W·len)·x_carry = a·x[..len] + b·y[..len] + cx`, `y'[..len] + 2^(W·len)·y_carry = c·x[..len] + d·y[..len] + cy`. -/
+theorem lehmer_ext_step_words_spec (W a b c d : Nat) (hab : a + b < 2 ^ W) (hcd : c + d < 2 ^ W)
+    (len : Nat) (x y : List Nat) (cx cy : Nat) (hx : IsWords W x) (hy : IsWords W y) (hcx : cx < 2 ^ W) (hcy : cy < 2 ^ W)
+    (hlx : len ≤ x.length) (hly : len ≤ y.length) :
+    ∃ x' y' cx' cy', lehmerExtStepWords W a b c d len x y cx cy = some (x', y', cx', cy') ∧
+      x'.length = x.length ∧ y'.length = y.length ∧ IsWords W x' ∧ IsWords W y' ∧ cx' < 2 ^ W ∧ cy' < 2 ^ W ∧
+      x'.drop len = x.drop len ∧ y'.drop len = y.drop len ∧
+      val W (x'.take len) + 2 ^ (W * len) * cx' = a * val W (x.take len) + b * val W (y.take len) + cx ∧
+      val W (y'.take len) + 2 ^ (W * len) * cy' = c * val W (x.take len) + d * val W (y.take len) + cy :=
+  lehmerExtStepWords_spec W a b c d hab hcd len x y cx cy hx hy hcx hcy hlx hly
+
+/-- a concrete run, with a carry out of both accumulations; and an overflow is reported, not wrapped, when the
+    cofactors violate the assertion -/
+example : lehmerExtStepWords 64 5 3 2 7 2 [2 ^ 64 - 1, 2 ^ 64 - 1, 9] [2 ^ 64 - 1, 1, 9] 0 0
+      = some ([18446744073709551608, 5, 9], [18446744073709551607, 13, 9], 5, 2) ∧
+    lehmerExtStepWords 64 (2 ^ 64 - 1) (2 ^ 64 - 1) 0 1 1 [2 ^ 64 - 1] [2 ^ 64 - 1] 0 0 = none := by decide +kernel
+
+/-- **Tie A: the accumulations of the mirrored word loop are the source's.**  `Gen.lehmer_ext_step_acc_x / _acc_y` are
+    regenerated on every run from the two `split_dword(…)` arguments of `lehmer_ext_step` (integer/src/gcd/lehmer.rs;
+    vlib/extract_roottabs.py pins every other token of the function — asserts, `extend_word`s, the zip/take(len)
+    loop, carry hand-over, stores, returned pair — and fails closed); the mirror equals the same loop over the
+    regenerated expressions, so an edit of an accumulation breaks this theorem, any other edit the extraction. -/
+theorem lehmer_ext_step_words_regenerated (W a b c d len : Nat) (x y : List Nat) (cx cy : Nat) :
+    lehmerExtStepWords W a b c d len x y cx cy = lehmerExtStepWordsG W a b c d len x y cx cy :=
+  lehmerExtStepWords_regenerated W a b c d len x y cx cy
+
+/-- **the committed cofactors meet the assertion of `lehmer_ext_step`**: every entry of the matrix that
+    `lehmer_guess` / `lehmer_guess_dword` commits is at most `SignedWord::MAX = 2^(W−1) − 1`. -/
+theorem lehmer_cofactors_le_signed_max (W x y : Nat) (hW : 2 ≤ W) :
+    (lehmerCofactors W x y).1 < 2 ^ (W - 1) ∧ (lehmerCofactors W x y).2.1 < 2 ^ (W - 1) ∧
+    (lehmerCofactors W x y).2.2.1 < 2 ^ (W - 1) ∧ (lehmerCofactors W x y).2.2.2 < 2 ^ (W - 1) :=
+  lehmerCofactors_le_signed_max W x y hW
+
+/-- **`lehmer_ext_step` inside `gcd_ext_in_place`, every iteration, word level.**  At the head of any iteration
+    reached from `(lhs, rhs, 0, 1)`, `rhs ≤ lhs`, at which the Lehmer guess commits (`b ≠ 0`): for ANY word buffers
+    `t0w`, `t1w` whose first `len` words hold `t0`, `t1` (the code passes `len = max(t0_len, t1_len)`), the word loop
+    returns (no double-word overflow), keeps the buffer lengths, leaves `a·t0 + b·t1` and `c·t0 + d·t1` in `len` words
+    plus one carry word each, and a NON-ZERO carry word implies `len < lhs_len` — the stores `t0[tmax_len] = t0_carry`,
+    `t1[tmax_len] = t1_carry` and the new lengths `tmax_len + 1` stay within `lhs_len` words (the buffers have
+    `lhs_len + 1`).  No hypothesis on the quotients the guess commits, none on the run other than that this
+    iteration is reached. -/
+theorem gcd_ext_lehmer_ext_step_words_fit (W : Nat) (hW : 2 ≤ W) (lhs rhs : Nat) (hlr : rhs ≤ lhs) (k : Nat)
+    (x y t0 t1 : Nat) (sw : Bool) (h : lehmerExtIter W k (lhs, rhs, 0, 1, false) = some (x, y, t0, t1, sw))
+    (hlen : 1 < wordLen W y) (hb : (lehmerCofactors W x y).2.1 ≠ 0)
+    (t0w t1w : List Nat) (len : Nat) (hw0 : IsWords W t0w) (hw1 : IsWords W t1w)
+    (hl0 : len ≤ t0w.length) (hl1 : len ≤ t1w.length)
+    (hv0 : val W (t0w.take len) = t0) (hv1 : val W (t1w.take len) = t1) :
+    ∃ x' y' cx cy,
+      lehmerExtStepWords W (lehmerCofactors W x y).1 (lehmerCofactors W x y).2.1 (lehmerCofactors W x y).2.2.1
+        (lehmerCofactors W x y).2.2.2 len t0w t1w 0 0 = some (x', y', cx, cy) ∧
+      x'.length = t0w.length ∧ y'.length = t1w.length ∧ IsWords W x' ∧ IsWords W y' ∧
+      x'.drop len = t0w.drop len ∧ y'.drop len = t1w.drop len ∧
+      val W (x'.take len) + 2 ^ (W * len) * cx = (lehmerCofactors W x y).1 * t0 + (lehmerCofactors W x y).2.1 * t1 ∧
+      val W (y'.take len) + 2 ^ (W * len) * cy = (lehmerCofactors W x y).2.2.1 * t0 + (lehmerCofactors W x y).2.2.2 * t1 ∧
+      (0 < cx → len < wordLen W lhs) ∧ (0 < cy → len < wordLen W lhs) :=
+  lehmerExt_step_words_fit W hW lhs rhs hlr k x y t0 t1 sw h hlen hb t0w t1w len hw0 hw1 hl0 hl1 hv0 hv1
+
+/-- the hypotheses are satisfiable: the iteration with `k = 3` of a concrete 200-bit run is reached with a
+    two-word `y`, a committed guess and multi-word coefficients -/
+example : (match lehmerExtIter 64 3 (2 ^ 200 + 12345, 3 ^ 120 + 7, 0, 1, false) with
+    | some (x, y, t0, _, _) => decide (1 < wordLen 64 y ∧ (lehmerCofactors 64 x y).2.1 ≠ 0 ∧ 2 ^ 64 < t0)
+    | none => false) = true := by decide +kernel
+
+-- ==================================================================== gcd_ext_in_place: Euclidean fallback (Round 6)
+
+/-- **Euclidean fallback of `gcd_ext_in_place`, every iteration: the slice handed to `add_signed_mul` is inside the
+    buffer.**  The code updates `t0 += q·t1` through `mul::add_signed_mul(&mut t0[..qt1_len], Positive, q_lo,
+    &t1[..t1_len])` with `qt1_len = q_lo.len() + t1_len`, then stores a carry at `t0[qt1_len]`.  At the head of any
+    iteration reached from `(lhs, rhs, 0, 1)`, `rhs ≤ lhs`, at which the loop goes on, with `q = x / y`: `q ≥ 1`,
+    `t1 ≥ 1` (the coefficient never vanishes), `t0 + q·t1 ≤ lhs < 2^(W·lhs_len)` and
+    `q.len() + t1_len ≤ lhs_len + 1` — the slice `t0[..qt1_len]` lies inside the `lhs_len + 1` words reserved, and a
+    non-zero carry word out of `qt1_len` words would need `qt1_len < lhs_len`, so `t0[qt1_len]` is in range too.
+    (The word loops of `add_signed_mul` themselves are C01's kernels and stay at value level.) -/
+theorem gcd_ext_euclid_slice_fits (W : Nat) (hW : 0 < W) (lhs rhs : Nat) (hlr : rhs ≤ lhs) (k : Nat)
+    (x y t0 t1 : Nat) (sw : Bool) (h : lehmerExtIter W k (lhs, rhs, 0, 1, false) = some (x, y, t0, t1, sw))
+    (hlen : 1 < wordLen W y) :
+    0 < x / y ∧ 0 < t1 ∧ t0 + x / y * t1 ≤ lhs ∧ t0 + x / y * t1 < 2 ^ (W * wordLen W lhs) ∧
+    wordLen W (x / y) + wordLen W t1 ≤ wordLen W lhs + 1 :=
+  lehmerExt_euclid_slice_fits W hW lhs rhs hlr k x y t0 t1 sw h hlen
+
+/-- the hypotheses are satisfiable, on a run whose first guess fails (a first quotient above `2^63`: `b = 0`, the
+    Euclidean fallback is taken at `k = 0` with a two-word quotient) -/
+example : (match lehmerExtIter 64 0 (2 ^ 200 + 12345, 2 ^ 130 + 7, 0, 1, false) with
+    | some (x, y, _, t1, _) => decide (1 < wordLen 64 y ∧ (lehmerCofactors 64 x y).2.1 = 0 ∧
+        wordLen 64 (x / y) = 2 ∧ wordLen 64 t1 = 1 ∧ wordLen 64 (2 ^ 200 + 12345) = 4)
+    | none => false) = true := by decide +kernel
+
+/-- the `q_top > 0` arm of the same update: the quotient then has `q_lo.len() + 1` words (`q_lo` is not trimmed), and
+    `add_mul_word_in_place(&mut t0[q_lo.len()..qt1_len.min(lhs_len)], q_top, &t1[..t1_len])` gets a destination of
+    `min(q_lo.len() + t1_len, lhs_len) − q_lo.len() = t1_len` words: `q_lo.len() + t1_len ≤ lhs_len`, the `min` never cuts -/
+theorem gcd_ext_euclid_qtop_slice_fits (W : Nat) (hW : 0 < W) (lhs rhs : Nat) (hlr : rhs ≤ lhs) (k : Nat)
+    (x y t0 t1 : Nat) (sw : Bool) (h : lehmerExtIter W k (lhs, rhs, 0, 1, false) = some (x, y, t0, t1, sw))
+    (hlen : 1 < wordLen W y) (qlo_len : Nat) (hq : wordLen W (x / y) = qlo_len + 1) :
+    qlo_len + wordLen W t1 ≤ wordLen W lhs ∧
+    min (qlo_len + wordLen W t1) (wordLen W lhs) - qlo_len = wordLen W t1 := by
+  have := (gcd_ext_euclid_slice_fits W hW lhs rhs hlr k x y t0 t1 sw h hlen).2.2.2.2
+  omega
+
+-- ==================================================================== lehmer_step: the signed word loop (Round 6)
+
+/-- **the `zip` loop of `lehmer::lehmer_step` mirrored at the word level** (`lehmerStepWords`,
+    Model/NT/LehmerStepWords.lean: two SIGNED double-word accumulations `a·x_i − b·y_i + x_carry`,
+    `d·y_i − c·x_i + y_carry`, `split_signed_dword`, signed carry words), for the cofactors `lehmer_guess` commits
+    (`lehmer_cofactors_le_signed_max`: every entry `≤ SignedWord::MAX`, the function's `debug_assert!`s), any word
+    operands with `y` not longer than `x`, and incoming carries that are signed words (`0, 0` in the code): NO signed
+    double-word accumulation overflows (the loop returns), lengths are kept, results are words, the word of `x` beyond
+    `y.len()` is untouched (it is left to the fix-up after the loop), outgoing carries are signed words, and with
+    `n = y.len()`: `x'[..n] + 2^(W·n)·x_carry = a·x[..n] − b·y`, `y' + 2^(W·n)·y_carry = d·y − c·x[..n]` (+ incoming
+    carries).  The `if x_carry != 0` fix-up on the top word of `x` is not part of this mirror; the value-level model
+    (`lehmerStep`, proved non-negative and gcd-preserving) stays the executed one. -/
+theorem lehmer_step_words_spec (W : Nat) (hW : 2 ≤ W) (X Y : Nat) (x y : List Nat) (cx cy : Int)
+    (hx : IsWords W x) (hy : IsWords W y)
+    (h1 : -(2 ^ (W - 1) : Int) ≤ cx) (h2 : cx < 2 ^ (W - 1)) (h3 : -(2 ^ (W - 1) : Int) ≤ cy) (h4 : cy < 2 ^ (W - 1))
+    (hl : y.length ≤ x.length) :
+    ∃ x' y' cx' cy',
+      lehmerStepWords W (lehmerCofactors W X Y).1 (lehmerCofactors W X Y).2.1 (lehmerCofactors W X Y).2.2.1
+        (lehmerCofactors W X Y).2.2.2 x y cx cy = some (x', y', cx', cy') ∧
+      x'.length = x.length ∧ y'.length = y.length ∧ IsWords W x' ∧ IsWords W y' ∧
+      -(2 ^ (W - 1) : Int) ≤ cx' ∧ cx' < 2 ^ (W - 1) ∧ -(2 ^ (W - 1) : Int) ≤ cy' ∧ cy' < 2 ^ (W - 1) ∧
+      x'.drop y.length = x.drop y.length ∧
+      (val W (x'.take y.length) : Int) + 2 ^ (W * y.length) * cx' =
+        ((lehmerCofactors W X Y).1 : Int) * val W (x.take y.length) - ((lehmerCofactors W X Y).2.1 : Int) * val W y + cx ∧
+      (val W y' : Int) + 2 ^ (W * y.length) * cy' =
+        ((lehmerCofactors W X Y).2.2.2 : Int) * val W y - ((lehmerCofactors W X Y).2.2.1 : Int) * val W (x.take y.length) + cy := by
+  obtain ⟨ha, hb, hc, hd⟩ := lehmerCofactors_le_signed_max W X Y hW
+  exact lehmerStepWords_spec W _ _ _ _ (by omega) ha hb hc hd y x cx cy hx hy h1 h2 h3 h4 hl
+
+/-- a concrete run with a negative carry on the way and a top word of `x` left to the fix-up; an out-of-range
+    accumulation is reported, not wrapped -/
+example : lehmerStepWords 64 3 5 2 7 [10, 2 ^ 64 - 1, 4] [2 ^ 64 - 1, 1] 0 0
+      = some ([35, 18446744073709551603, 4], [18446744073709551589, 15], 2, -2) ∧
+    lehmerStepWords 64 (2 ^ 64 - 1) 0 0 1 [2 ^ 64 - 1] [0] 0 0 = none := by decide +kernel
+
+/-- **Tie A: the signed accumulations of the mirrored `lehmer_step` loop are the source's.**  `Gen.lehmer_step_acc_x /
+    _acc_y` are regenerated on every run from the two `split_signed_dword(…)` arguments of `lehmer_step`
+    (vlib/extract_roottabs.py pins every other token of the function, incl. the `x_top` fix-up, and fails closed). -/
+theorem lehmer_step_words_regenerated (W a b c d : Nat) (x y : List Nat) (cx cy : Int) :
+    lehmerStepWords W a b c d x y cx cy = lehmerStepWordsG W a b c d x y cx cy :=
+  lehmerStepWords_regenerated W a b c d y x cx cy
+
+-- ==================================================================== lehmer_step in full (Round 6)
+
+/-- **what a committed guess guarantees** (`b ≠ 0`, `y ≤ x`, `y` of more than one word): both combined values are
+    strictly positive, `(a·x − b·y) + (d·y − c·x) ≤ x` — so the step does not increase `x` — and `a ≥ 1`: the value-level
+    hypotheses of the two word-level theorems below (all but `d·y − c·x < 2^(W·y.len())`, which is the function's own
+    `debug_assert_eq!(y_carry, c * x_top)`). -/
+theorem lehmer_step_committed_values (W : Nat) (hW : 0 < W) (x y : Nat) (hxy : y ≤ x) (hlen : 1 < wordLen W y)
+    (hb : (lehmerCofactors W x y).2.1 ≠ 0) :
+    0 < ((lehmerCofactors W x y).1 : Int) * x - ((lehmerCofactors W x y).2.1 : Int) * y ∧
+    0 < ((lehmerCofactors W x y).2.2.2 : Int) * y - ((lehmerCofactors W x y).2.2.1 : Int) * x ∧
+    (((lehmerCofactors W x y).1 : Int) * x - ((lehmerCofactors W x y).2.1 : Int) * y) +
+      (((lehmerCofactors W x y).2.2.2 : Int) * y - ((lehmerCofactors W x y).2.2.1 : Int) * x) ≤ x ∧
+    1 ≤ (lehmerCofactors W x y).1 :=
+  lehmer_committed_values W hW x y hxy hlen hb
+
+/-- **`lehmer_step` in full, word level, operands of equal length** (`lehmerStepFull`, Model/NT/LehmerStepFull.lean: the
+    zip loop, then the `if x_carry != 0` fix-up with both `debug_assert_eq!`s as failures): cofactors at most
+    `SignedWord::MAX`; if `a·X − b·Y` and `d·Y − c·X` are non-negative and fit `y.len()` words, the function returns
+    exactly them — both loop carries are zero, so the fix-up (which would touch the wrong word here) is not entered. -/
+theorem lehmer_step_full_eqlen (W a b c d : Nat) (hW : 1 ≤ W) (ha : a < 2 ^ (W - 1)) (hb : b < 2 ^ (W - 1))
+    (hc : c < 2 ^ (W - 1)) (hd : d < 2 ^ (W - 1)) (x y : List Nat) (hx : IsWords W x) (hy : IsWords W y)
+    (hl : x.length = y.length)
+    (h1 : 0 ≤ (a : Int) * val W x - (b : Int) * val W y) (h2 : (a : Int) * val W x - (b : Int) * val W y < 2 ^ (W * y.length))
+    (h3 : 0 ≤ (d : Int) * val W y - (c : Int) * val W x) (h4 : (d : Int) * val W y - (c : Int) * val W x < 2 ^ (W * y.length)) :
+    ∃ x' y', lehmerStepFull W a b c d x y = some (x', y') ∧ x'.length = x.length ∧ y'.length = y.length ∧
+      IsWords W x' ∧ IsWords W y' ∧
+      (val W x' : Int) = (a : Int) * val W x - (b : Int) * val W y ∧
+      (val W y' : Int) = (d : Int) * val W y - (c : Int) * val W x :=
+  lehmerStepFull_eqlen W a b c d hW ha hb hc hd x y hx hy hl h1 h2 h3 h4
+
+/-- **`lehmer_step` in full, `x` one word longer than `y`** (`x = xl ++ [x_top]`, the other shape its first
+    `debug_assert!` admits): if `0 ≤ a·X − b·Y ≤ X`, `0 ≤ d·Y − c·X < 2^(W·y.len())` and `a ≥ 1`, the function returns
+    exactly the two results: `y_carry = c·x_top` (first `debug_assert_eq!`), the fix-up `a·x_top + x_carry` is one word
+    with zero carry (second `debug_assert_eq!`), and when the loop leaves NO carry the top word the code does not
+    touch is already right (`a·x_top = x_top`). -/
+theorem lehmer_step_full_longer (W a b c d : Nat) (hW : 1 ≤ W) (ha : a < 2 ^ (W - 1)) (hb : b < 2 ^ (W - 1))
+    (hc : c < 2 ^ (W - 1)) (hd : d < 2 ^ (W - 1)) (ha1 : 1 ≤ a) (xl : List Nat) (xt : Nat) (y : List Nat)
+    (hx : IsWords W xl) (hxt : xt < 2 ^ W) (hy : IsWords W y) (hl : xl.length = y.length)
+    (h1 : 0 ≤ (a : Int) * val W (xl ++ [xt]) - (b : Int) * val W y)
+    (h2 : (a : Int) * val W (xl ++ [xt]) - (b : Int) * val W y ≤ val W (xl ++ [xt]))
+    (h3 : 0 ≤ (d : Int) * val W y - (c : Int) * val W (xl ++ [xt]))
+    (h4 : (d : Int) * val W y - (c : Int) * val W (xl ++ [xt]) < 2 ^ (W * y.length)) :
+    ∃ x' y', lehmerStepFull W a b c d (xl ++ [xt]) y = some (x', y') ∧ x'.length = xl.length + 1 ∧ y'.length = y.length ∧
+      IsWords W x' ∧ IsWords W y' ∧
+      (val W x' : Int) = (a : Int) * val W (xl ++ [xt]) - (b : Int) * val W y ∧
+      (val W y' : Int) = (d : Int) * val W y - (c : Int) * val W (xl ++ [xt]) :=
+  lehmerStepFull_longer W a b c d hW ha hb hc hd ha1 xl xt y hx hxt hy hl h1 h2 h3 h4
+
+/-- the hypotheses are satisfiable and the fix-up arm is exercised: `x = [5, 7, 1]`, `y = [0, 2^63]`, `(a, b, c, d) =
+    (1, 2, 0, 1)` leaves `x_carry = −1`, the fix-up turns the top word into `0`; on a negative result (`2·Y > X`) the
+    violated `debug_assert_eq!(cx, 0)` is reported -/
+example : lehmerStepFull 64 1 2 0 1 [5, 7, 1] [0, 2 ^ 63] = some ([5, 7, 0], [0, 2 ^ 63]) ∧
+    (val 64 [5, 7, 0] : Int) = 1 * val 64 [5, 7, 1] - 2 * val 64 [0, 2 ^ 63] ∧
+    lehmerStepFull 64 1 2 0 1 [5, 7, 1] [0, 2 ^ 63 + 5] = none := by decide +kernel
 
 end Dashu.Props.C12
